@@ -408,7 +408,9 @@ class HistoryRun:
         return out
 
     # -------------------------------------------------------------- one pavexc execution
-    def exec_pavexc(self, step):
+    def exec_pavexc(self, step, between=None):
+        """`between`: called once the process has been started (overlap arm: it waits for the process
+        to park at its pause point, runs the peer process to completion and lets this one go on)."""
         proj = step.get("proj", "p0")
         if proj not in self.projects:
             self.reset_project(proj)
@@ -467,6 +469,14 @@ class HistoryRun:
                 spec += f":{fault['prefix']}"
             env["VERIF_FAULT"] = spec
             env["VERIF_FAULT_PATH"] = {"cache": "/.pavex/", "project": ws + "/"}[fault["phase"]]
+        pause = step.get("pause")
+        if pause:
+            pdir = os.path.join(self.slot.dir, f"pause-{self.seq}")
+            rmtree(pdir)
+            os.makedirs(pdir)
+            env["VERIF_FAULT"] = f"pause@{pause['k']}"
+            env["VERIF_FAULT_PATH"] = {"cache": "/.pavex/", "project": ws + "/"}[pause["phase"]]
+            env["VERIF_PAUSE_DIR"] = pdir
         before = self.snapshot(proj, lay)
         rows_before = None
         timeout = float(step.get("timeout", DEFAULT_TIMEOUT))
@@ -495,6 +505,13 @@ class HistoryRun:
             timer = threading.Timer(timeout, killer)
             timer.start()
             try:
+                if between is not None:
+                    try:
+                        between(p, env.get("VERIF_PAUSE_DIR"))
+                    finally:
+                        # whatever happened in between, never leave the process parked
+                        if env.get("VERIF_PAUSE_DIR"):
+                            open(os.path.join(env["VERIF_PAUSE_DIR"], "resume"), "w").close()
                 _, status, ru = os.wait4(p.pid, 0)
             finally:
                 timer.cancel()
@@ -746,6 +763,49 @@ class HistoryRun:
             fault["prefix"] = step.get("prefix_draw", 0) % 97
         self._prim(dict(base, op="exec", fault=fault, label="faulted"))
 
+    def overlap_exec(self, step):
+        """Two pavexc processes on one cache, deterministically interleaved: process A (project p0) is
+        parked by the shim at its k-th cache write, process B (the sibling project p1, same HOME) runs
+        from start to end, then A goes on. k is seeded; exactly one process runs at any time."""
+        base = dict(step["exec"])
+        self._prim({"op": "save"})
+        prof = self._prim(dict(base, op="exec", label="profile"))
+        w = prof["w_cache"] if step["phase"] == "cache" else prof["w_project"]
+        self._prim({"op": "restore"})
+        if w <= 0:
+            self.notes.append(f"overlap_exec: no write in phase {step['phase']}; the two runs happen one after the other")
+            self._prim(dict(base, op="exec", label="A-unparked"))
+            self._prim(dict(step["peer"], op="exec", label="B-after"))
+            return
+        k = 1 + step["k_draw"] % w
+        return self.overlap_at({"op": "overlap_at", "phase": step["phase"], "k": k, "w": w, "exec": base, "peer": dict(step["peer"])})
+
+    def overlap_at(self, step):
+        """primitive form (explicit k): what replay files contain"""
+        self.concrete.append(step)
+        k, w = step["k"], step["w"]
+        a_step = dict(step["exec"], op="exec", pause={"phase": step["phase"], "k": k, "w": w}, label=f"A-parked@{k}/{w}")
+
+        def ended(pid):
+            try:
+                return os.waitid(os.P_PID, pid, os.WEXITED | os.WNOHANG | os.WNOWAIT) is not None
+            except ChildProcessError:
+                return True
+
+        def between(proc, pdir):
+            # wait until A is parked (or has ended without reaching its k-th write)
+            reached = os.path.join(pdir, "reached")
+            t_end = time.time() + 900
+            while time.time() < t_end and not os.path.exists(reached) and not ended(proc.pid):
+                time.sleep(0.01)
+            parked = os.path.exists(reached)
+            b = dict(step["peer"], op="exec", label="B-while-A-parked" if parked else "B-after-A", peer_parked=parked)
+            if parked and "timeout" not in b:
+                b["timeout"] = min(DEFAULT_TIMEOUT, 180.0)
+            self.exec_pavexc(b)
+
+        return self.exec_pavexc(a_step, between=between)
+
     def crash_enum(self, step):
         base = dict(step["exec"])
         self._prim({"op": "save"})
@@ -800,6 +860,10 @@ class HistoryRun:
             op = step["op"]
             if op == "fault_exec":
                 self.fault_exec(step)
+            elif op == "overlap_exec":
+                self.overlap_exec(step)
+            elif op == "overlap_at":
+                self.overlap_at(step)
             elif op == "crash_enum":
                 self.crash_enum(step)
             else:
@@ -825,3 +889,5 @@ class HistoryRun:
             yield s
             if "exec" in s:
                 yield s["exec"]
+            if "peer" in s:
+                yield s["peer"]
